@@ -347,6 +347,26 @@ impl Engine {
         if let Some(d) = s.diff_abs(&w) {
             let m = format!("after {what}: {d}");
             viol!(self, "C02", m);
+            // C05: the metadata no longer records what the callers hold; does a recovery from this (quiescent)
+            // state restore it? Recover a copy of the lower metadata with the real code and compare frame by frame.
+            if !self.lower_only && i.offset == 0 {
+                self.cov.oracle("C05");
+                let fresh = Bufs::for_cfg(&i.cfg);
+                fresh.lower.slice().copy_from_slice(i.bufs.lower.bytes());
+                if let Ok(Ok(rec)) = Inst::create(&i.cfg, Init::Recover, fresh) {
+                    let n = i.cfg.frames;
+                    let bad = (0..n.min(s.alloc.len()))
+                        .find(|&f| guarded(|| rec.alloc.lower.is_free(FrameId(f), 0)).map(|fr| fr == s.alloc[f]).unwrap_or(false));
+                    if let Some(f) = bad {
+                        let m = if s.alloc[f] {
+                            format!("after {what}: a recovery from this quiescent state loses a completed allocation: frame {f} is held by a caller and free after LLFree::new(Init::Recover)")
+                        } else {
+                            format!("after {what}: a recovery from this quiescent state loses a free frame: frame {f} is free and allocated after LLFree::new(Init::Recover)")
+                        };
+                        viol!(self, "C05", m);
+                    }
+                }
+            }
             // resynchronise so that one defect is reported once
             let n = i.cfg.frames;
             let hidden = s.hidden.clone();
@@ -437,6 +457,7 @@ impl Engine {
                     drop(old);
                     Bufs::for_cfg(&cfg)
                 };
+                let history_ok = !self.dead && !self.poisoned && !self.lower_only;
                 self.dead = false;
                 self.poisoned = false;
                 self.lower_only = false;
@@ -445,6 +466,13 @@ impl Engine {
                 self.c11_ok = cfg.classes.len() == 1 && cfg.classes[0].1 == 1;
                 self.cov.hit("new", init_name(init), "");
                 let hidden_keep = if keep { self.shadow.as_ref().map(|s| s.hidden.clone()) } else { None };
+                // C05, sequential half: what the callers held (ownership model, not the metadata) before a recovery
+                // at a quiescent point; a poisoned or lower-only history has no trustworthy record
+                let before_recover = if keep && init == Init::Recover && history_ok {
+                    self.shadow.as_ref().map(|s| s.alloc.clone())
+                } else {
+                    None
+                };
                 match Inst::create_zone(&cfg, init, bufs, zoff) {
                     Ok(Ok(inst)) => {
                         let w = inst.words();
@@ -456,6 +484,19 @@ impl Engine {
                             if let Some(h) = hidden_keep {
                                 if h.len() == sh.hidden.len() {
                                     sh.hidden = h;
+                                }
+                            }
+                        }
+                        if let Some(before) = before_recover {
+                            self.cov.oracle("C05");
+                            if before.len() == sh.alloc.len() {
+                                if let Some(f) = (0..frames.min(before.len())).find(|&f| before[f] != sh.alloc[f]) {
+                                    let msg = if before[f] {
+                                        format!("recovery at a quiescent point lost a completed allocation: frame {f} was held before and is free afterwards")
+                                    } else {
+                                        format!("recovery at a quiescent point lost a free frame: frame {f} was free before and is allocated afterwards")
+                                    };
+                                    viol!(self, "C05", msg);
                                 }
                             }
                         }
